@@ -241,6 +241,35 @@ def digest(x):
     return h.hexdigest()
 
 
+def raw_state(o, depth=0):
+    """the PRIVATE state of an object, read from vars(o) WITHOUT calling any getter (a getter with a side effect would hide its own
+    effect from a snapshot made through getters): arrays by bytes, scalars by value, random generators by their bit-generator
+    state, nested quara objects recursively; the lazily built tables of CompositeSystem are left out (they are modelled by the
+    cache machine) and composite systems are named by identity-free type only"""
+    Q = q()
+    if o is None or isinstance(o, (bool, int, float, complex, str, np.generic)):
+        return repr(o)
+    if isinstance(o, np.ndarray):
+        return ("nd", str(o.dtype), o.shape, hashlib.sha1(np.ascontiguousarray(o).tobytes()).hexdigest())
+    if isinstance(o, np.random.Generator):
+        return ("rng", repr(o.bit_generator.state))
+    if isinstance(o, (list, tuple)):
+        return [raw_state(v, depth + 1) for v in o] if depth < 6 else "<deep>"
+    if isinstance(o, dict):
+        return [(repr(k), raw_state(v, depth + 1)) for k, v in sorted(o.items(), key=lambda kv: repr(kv[0]))] if depth < 6 else "<deep>"
+    if isinstance(o, (Q["cs"].CompositeSystem, Q["es"].ElementalSystem, Q["mb"].Basis)) or callable(o):
+        return "<%s>" % type(o).__name__
+    if hasattr(o, "__dict__") and type(o).__module__.startswith("quara") and depth < 6:
+        return (type(o).__name__, [(k, raw_state(v, depth + 1)) for k, v in sorted(vars(o).items())])
+    return "<%s>" % type(o).__name__
+
+
+def snap(x):
+    """fingerprint for before / after comparisons of ONE object: its private state (taken first, without getters) and its observable value"""
+    r = repr(raw_state(x))
+    return hashlib.sha1(r.encode()).hexdigest() + digest(x)
+
+
 CFG = ("is_physicality_required", "is_estimation_object", "on_para_eq_constraint", "on_algo_eq_constraint",
        "on_algo_ineq_constraint", "mode_proj_order", "eps_proj_physical", "eps_truncate_imaginary_part")
 
@@ -528,6 +557,18 @@ def chk_heap(ctx, case):
             ctx.violation("heap", S_MPROC, "heap-model-mismatch:value", "result differs from the model: %s vs %s" % (list(res)[:6], res_m[:6]), case)
         if np.shares_memory(res, var) != (int(val[0]) == 0):
             ctx.violation("heap", S_MPROC, "heap-model-mismatch:aliasing", "result aliasing differs from the model", case)
+        for lname, largs, parents in layout_variants([before.copy()]):
+            if lname == "fortran":
+                continue
+            dl, dp = digest(largs), digest(parents)
+            try:
+                rl = canon(Q["mp"].MProcess.calc_proj_eq_constraint_with_var(World().csys(((case["sys"],), 0)), largs[0], on_para_eq_constraint=on_para))
+            except Exception as e:
+                rl = canon(e)
+            if digest(largs) != dl or digest(parents) != dp:
+                ctx.violation("heap", S_MPROC, "mutates-argument", "%s variable vector overwritten (on_para_eq_constraint=%s)" % (lname, on_para), dict(case, layout=lname))
+            elif not same(canon(np.array(res)), rl, 1e-12):
+                ctx.violation("heap", S_MPROC, "layout-dependent", "result on a %s vector differs from the result on a contiguous one" % lname, dict(case, layout=lname))
         if not np.array_equal(var, before):               # the repaired model leaves the argument as it was (arg_m == before)
             # which model explains the contents of the argument now?  (flag 0: as coded before the fix)
             val0 = m.call("c13.mp_proj_eq", [d2, int(on_para), 0], [float(x) for x in before])
@@ -587,6 +628,19 @@ def chk_heap(ctx, case):
             ctx.violation("heap", site, "mutates-argument", "argument overwritten (on_para_eq_constraint=%s)" % on_para, case)
         if not same(r1, r2):
             ctx.violation("heap", site, "history-dependent", "second call on a copy in a fresh world gives another result", case)
+        # the variable vector in other memory layouts: a strided view into a larger buffer, a read-only array
+        for lname, largs, parents in layout_variants([before.copy()]):
+            if lname == "fortran":
+                continue
+            dl, dp = digest(largs), digest(parents)
+            try:
+                rl = canon(f(World().csys(((case["sys"],), 0)), largs[0], **kw))
+            except Exception as e:
+                rl = canon(e)
+            if digest(largs) != dl or digest(parents) != dp:
+                ctx.violation("heap", site, "mutates-argument", "%s variable vector overwritten (on_para_eq_constraint=%s)" % (lname, on_para), dict(case, layout=lname))
+            elif not same(r1, rl, 1e-12):
+                ctx.violation("heap", site, "layout-dependent", "%s on a contiguous vector, %s on the same values as a %s vector" % (_brief(r1), _brief(rl), lname), dict(case, layout=lname))
 
 
 def var_len(cls, d, on_para, m):
@@ -1143,7 +1197,7 @@ def run_history(ctx, case, report=True, record=None):
             continue                                         # operand was produced by an operation removed while shrinking
         site = op_site(desc, pool)
         # ---- snapshots of every pool object and of every composite system's basis
-        before = {key: digest(ent["obj"]) for key, ent in pool.items()}
+        before = {key: snap(ent["obj"]) for key, ent in pool.items()}
         bases = {cid: digest(c.basis()) for cid, c in world.cs.items()}
         if desc["t"] in ("cache", "basisq"):
             cid = (tuple(desc["cs"][0]), desc["cs"][1])
@@ -1217,7 +1271,7 @@ def run_history(ctx, case, report=True, record=None):
                 if "twin" in ent:
                     ent["twin"] = ent["obj"].copy(); ent["twin_fr"] = freeze(ent["obj"], ent["csid"])
                 continue
-            if digest(ent["obj"]) != before[key]:
+            if snap(ent["obj"]) != before[key]:
                 sig = "mutates-argument" if key in desc["a"] else "mutates-derived-object"
                 fails.append((site, sig, k, "op %d (%s) changed the value of pool object %s (%s)" % (k, site, key, "operand" if key in desc["a"] else "not an operand")))
         for cid2, c in world.cs.items():
@@ -1325,7 +1379,7 @@ def chk_factory(ctx, case):
             continue
         obj = thaw(fr, w)
         twin = obj.copy()
-        d0 = digest(obj)
+        d0 = snap(obj)
         try:
             cl = perform(w, desc, [obj])
         except Exception as e:
@@ -1342,7 +1396,7 @@ def chk_factory(ctx, case):
         differs = (op_ is not None and op_ != own[0]) or ((order or "eq_ineq") != own[1] and FACTORIES[m] == 3)
         ctx.count("factory", key=(case["key"], m, op_, order, it), nontrivial=True,
                   label="%s %s" % (m, "arguments differ from the object's configuration" if differs else "arguments = the object's configuration"))
-        if digest(obj) != d0:
+        if snap(obj) != d0:
             ctx.violation("factory", site, "mutates-argument",
                           "%s(on_para_eq_constraint=%s, mode_proj_order=%s, max_iteration=%s) changed its object: public attributes %s" % (
                               m, op_, order, it, [(a, b[1], c[1]) for a, b, c in [(x[0], x, y) for x, y in zip(public_config(thaw(fr, World())), public_config(obj))] if not same(b[1], c[1])][:4]), sub)
@@ -1416,6 +1470,37 @@ def pure_table():
     return T
 
 
+def layout_variants(args):
+    """the same argument VALUES in other memory layouts: Fortran order, a strided view into a larger buffer (gaps filled with 99),
+    read-only copies.  returns [(name, args, parents)] - parents are the buffers behind the views (they must stay untouched too)"""
+    def mapa(x, f):
+        if isinstance(x, np.ndarray):
+            return f(x)
+        if isinstance(x, list):
+            return [mapa(v, f) for v in x]
+        if isinstance(x, tuple):
+            return tuple(mapa(v, f) for v in x)
+        return x
+    parents = []
+
+    def strided(a):
+        if a.ndim == 0 or a.size == 0:
+            return a.copy()
+        big = np.full(a.shape[:-1] + (2 * a.shape[-1],), 99, dtype=a.dtype)
+        view = big[..., ::2]
+        view[...] = a
+        parents.append(big)
+        return view
+
+    def ro(a):
+        b = a.copy(); b.setflags(write=False); return b
+    out = [("fortran", mapa(args, lambda a: np.asfortranarray(a.copy()) if a.ndim >= 2 else a.copy()), [])]
+    sv = mapa(args, strided)
+    out.append(("strided", sv, parents))
+    out.append(("read-only", mapa(args, ro), []))
+    return out
+
+
 def chk_pure(ctx, case):
     """helper functions neither change their arguments nor depend on earlier calls (the returned projection functions neither)"""
     import importlib
@@ -1454,12 +1539,109 @@ def chk_pure(ctx, case):
         r3 = call([copy.deepcopy(a) for a in args])
         if not same(r1, r2) or not same(r1, r3):
             ctx.violation("pure", site, "history-dependent", "%s: first call %s, second call %s, call on copies %s" % (site, _brief(r1), _brief(r2), _brief(r3)), sub)
+        # the result depends on the VALUES of the arguments, not on their memory layout / write flag; the arguments (and the buffers behind
+        # strided views) stay untouched
+        for lname, largs, parents in layout_variants(args):
+            dl, dp = digest(largs), digest(parents)
+            rl = call(largs)
+            ctx.count("pure", key=(site, idx, lname), nontrivial=not (isinstance(rl, tuple) and rl and rl[0] == "exc"), label="%s %s" % (case["mod"], lname))
+            if digest(largs) != dl or digest(parents) != dp:
+                ctx.violation("pure", site, "mutates-argument", "%s changed its %s argument(s) (argument list %d)" % (site, lname, idx), dict(sub, layout=lname))
+            elif not same(r1, rl, 1e-12):
+                ctx.violation("pure", site, "layout-dependent", "%s: %s on C-contiguous writable arrays, %s on the same values as %s arrays" % (site, _brief(r1), _brief(rl), lname), dict(sub, layout=lname))
 
 
 def sub_pure(ctx):
     cases = [{"mod": mo, "fn": fn} for (mo, fn, _) in pure_table()]
     ctx.sample("pure", cases[0])
     ctx.run_cases("pure", chk_pure, cases)
+
+
+# ------------------------------------------------------------------------------------------------ getters
+def getter_objects(which):
+    """fresh objects of every class, built with DEFAULT arguments wherever the constructor has defaults (lazily resolved defaults)"""
+    Q = q()
+    w = World()
+    c = w.csys(((0,), 0))
+    if which in ("State", "Gate", "Povm", "MProcess"):
+        from quara.objects.state import get_x0_1q
+        from quara.objects.gate import get_h
+        from quara.objects.povm import get_z_povm
+        if which == "State":
+            return get_x0_1q(c)
+        if which == "Gate":
+            return get_h(c)
+        if which == "Povm":
+            return get_z_povm(c)
+        return Q["mp"].MProcess(c, [0.5 * np.eye(4), 0.5 * np.eye(4)])
+    if which == "MProcess(sampling)":
+        return Q["mp"].MProcess(c, [0.5 * np.eye(4), 0.5 * np.eye(4)], mode_sampling=True, random_seed_or_generator=np.random.Generator(np.random.MT19937(5)))
+    if which == "MultinomialDistribution":
+        return Q["md"].MultinomialDistribution(np.array([0.25, 0.0, 0.5, 0.25]), shape=(2, 2))
+    if which == "StateEnsemble":
+        from quara.objects.state import get_x0_1q, get_z0_1q
+        return Q["se"].StateEnsemble([get_x0_1q(c), get_z0_1q(c)], Q["md"].MultinomialDistribution(np.array([0.5, 0.5])))
+    if which == "Experiment":
+        return mk_experiment(w)
+    if which.startswith("Standard"):
+        return make_tomo(which[8:].lower(), True, w)
+    if which.startswith("loss"):
+        kind = int(which[4:])
+        w2, c2, qst = loss_env(True)
+        lo = new_loss(kind, qst.num_variables)
+        lo.set_from_standard_qtomography_option_data(qst, loss_option(kind, "identity", None), mk_dataset([[100, "3/5"], [100, "9/20"], [100, "1/10"]]), True, False)
+        return lo
+    if which == "algo":
+        from quara.minimization_algorithm.projected_gradient_descent_backtracking import ProjectedGradientDescentBacktracking as A
+        a = A()
+        a.set_from_option(algo_option(3))
+        a.set_constraint_from_standard_qt_and_option(loss_env(True)[2], algo_option(3))
+        return a
+    raise KeyError(which)
+
+
+GETTER_CLASSES = ["State", "Gate", "Povm", "MProcess", "MProcess(sampling)", "MultinomialDistribution", "StateEnsemble", "Experiment",
+                  "StandardQst", "StandardPovmt", "StandardQpt", "StandardQmpt", "loss0", "loss1", "loss2", "loss3", "algo"]
+
+
+def chk_getters(ctx, case):
+    """READING is not an operation: reading any public property of a fresh object (built with default arguments), outside and inside
+    a temporary Settings.set_atol window, leaves the PRIVATE state of the object (vars(), taken without getters) exactly as it was -
+    a getter that resolves a default lazily would freeze the global tolerance of that moment into the object"""
+    Q = q()
+    which = case["cls"]
+    atol0 = Q["Settings"].get_atol()
+    for window in (None, 1e-3):
+        o = getter_objects(which)
+        names = [n for n in sorted(dir(type(o))) if not n.startswith("_") and isinstance(getattr(type(o), n, None), property)]
+        if case.get("prop") is not None:
+            names = [n for n in names if n == case["prop"]]
+        r0 = raw_state(o)
+        for n in names:
+            if window is not None:
+                Q["Settings"].set_atol(window)
+            try:
+                with warnings.catch_warnings():
+                    warnings.simplefilter("ignore")
+                    getattr(o, n)
+            except Exception:
+                pass
+            finally:
+                Q["Settings"].set_atol(atol0)
+            r1 = raw_state(o)
+            ctx.count("getters", key=(which, n, window), label=which)
+            if repr(r1) != repr(r0):
+                ch = [(a[0], a[1], b[1]) for a, b in zip(r0[1], r1[1]) if repr(a) != repr(b)] if isinstance(r0, tuple) and isinstance(r1, tuple) and len(r0[1]) == len(r1[1]) else "?"
+                ctx.violation("getters", "%s.%s" % (type(o).__name__, n), "getter-mutates-object",
+                              "reading the property %s of a fresh %s%s changed its private state: %s" % (
+                                  n, which, "" if window is None else " while Settings.atol was temporarily %g" % window, _brief(ch)), dict(case, prop=n))
+                r0 = r1
+
+
+def sub_getters(ctx):
+    cases = [{"cls": c_} for c_ in GETTER_CLASSES]
+    ctx.sample("getters", cases[0])
+    ctx.run_cases("getters", chk_getters, cases)
 
 
 # ------------------------------------------------------------------------------------------------ seeded sampling
@@ -1511,6 +1693,55 @@ def chk_sampling(ctx, case):
         ctx.violation("sampling", site, "consumes-global-rng", "a composition with a seeded sampling MProcess advanced numpy's global generator", case)
 
 
+def chk_sampling_copy(ctx, case):
+    """copies of a sampling-mode MProcess are independent of their original also in their RANDOM STREAM, for every kind of
+    random_seed_or_generator (int seed, np.random.Generator instance): sampling with the copy leaves the private state of the
+    original (generator state included) as it was, and the original then samples what a never-copied twin built from the same
+    arguments samples"""
+    Q = q()
+    rng = random.Random(case["seed"])
+    w = World()
+    c = w.csys(((0,), 0))
+
+    def tp_gate():
+        hs = np.eye(4)
+        hs[1:, 1:] = np.array([[fr10(rng) for _ in range(3)] for _ in range(3)]) * 0.5
+        hs[1:, 0] = [fr10(rng, -3, 3) * 0.5 for _ in range(3)]
+        return hs
+    hss = [pw * tp_gate() for pw in (0.5, 0.3, 0.2)]
+    st = Q["st"].State(c, np.array([1.0, fr10(rng, -5, 5), fr10(rng, -5, 5), fr10(rng, -5, 5)]) / np.sqrt(2), is_physicality_required=False)
+    ens = Q["op"].compose_qoperations(Q["mp"].MProcess(c, [h.copy() for h in hss], is_physicality_required=False), st)
+    seedarg = (lambda: case["mseed"]) if case["seedkind"] == "int" else (lambda: np.random.Generator(np.random.MT19937(case["mseed"])))
+    mk = lambda: Q["mp"].MProcess(c, [h.copy() for h in hss], is_physicality_required=False, mode_sampling=True, random_seed_or_generator=seedarg())
+
+    def draws(mp, n):
+        out = []
+        for j in range(n):
+            try:
+                with warnings.catch_warnings():
+                    warnings.simplefilter("ignore")
+                    out.append(canon(Q["op"].compose_qoperations(mp, st if j % 2 == 0 else ens)))
+            except Exception as e:
+                out.append(canon(e))
+        return out
+    m, twin = mk(), mk()
+    how = case["how"]
+    cp = m.copy() if how == "copy" else copy.deepcopy(m) if how == "deepcopy" else m.copy().copy()
+    site = "MProcess.%s" % ("copy" if how != "deepcopy" else "__deepcopy__")
+    r0 = repr(raw_state(m))
+    d_cp = draws(cp, 6)
+    ctx.count("sampling", key=(case["seedkind"], how, case["mseed"]), nontrivial=len(set(repr(x) for x in d_cp)) > 1, label="copy of a sampling MProcess (%s seed)" % case["seedkind"])
+    if repr(raw_state(m)) != r0:
+        ctx.violation("sampling_copy", site, "copy-shares-random-state",
+                      "6 sampled compositions with a %s of a sampling MProcess (random_seed_or_generator: %s) changed the private state of the ORIGINAL (its random generator advanced)" % (how, case["seedkind"]), case)
+        return
+    d_m, d_t = draws(m, 6), draws(twin, 6)
+    if not same(d_m, d_t):
+        ctx.violation("sampling_copy", site, "not-independent", "after sampling with its %s the original samples other states than a never-copied twin built from the same arguments" % how, case)
+    if not same(d_cp, d_t):
+        ctx.violation("sampling_copy", site, "value", "the %s does not sample what its original would have sampled (a copy is value-identical, random stream included)" % how, case)
+
+
 def sub_sampling(ctx):
     cases = [{"seed": ctx.rng.randrange(1 << 30), "pool_seed": ctx.rng.randrange(1 << 30), "mseed": ctx.rng.randrange(1000), "on": on,
               "global_seeds": [1, 2, 3], "draws": 8} for on in ("state", "ensemble") for _ in range(ctx.n(2, 10))]
@@ -1518,6 +1749,9 @@ def sub_sampling(ctx):
     try:
         ctx.sample("sampling", cases[0])
         ctx.run_cases("sampling", chk_sampling, cases)
+        cc = [{"seed": ctx.rng.randrange(1 << 30), "mseed": ctx.rng.randrange(1000), "seedkind": sk, "how": how}
+              for sk in ("int", "generator") for how in ("copy", "copy.copy")]       # (copy.deepcopy also duplicates the composite system: nothing can be composed with it)
+        ctx.run_cases("sampling_copy", chk_sampling_copy, cc)
     finally:
         np.random.set_state(st)
 
@@ -1879,7 +2113,7 @@ def chk_derived(ctx, case):
     if not (hasattr(obj, g) or "+" in g or "(" in g or "*" in g):
         return
     site_g = "%s.%s" % (kind, g)
-    d0 = digest(obj)
+    d0 = snap(obj)
     try:
         with warnings.catch_warnings():
             warnings.simplefilter("ignore")
@@ -1887,7 +2121,7 @@ def chk_derived(ctx, case):
     except Exception as e:
         ctx.count("derived", key=(case["key"], g), nontrivial=False, label="%s!raise" % g)
         return
-    if digest(obj) != d0:
+    if snap(obj) != d0:
         ctx.violation("derived", site_g, "mutates-argument", "%s changed its object" % g, case)
     # (generate_from_var adopts the variable vector handed to it - the constructor exception of the property - and to_var() of an
     #  object without parameter constraint hands out its vector: that chain may alias, no quara operation writes through it)
@@ -1899,11 +2133,36 @@ def chk_derived(ctx, case):
         return
     fr = freeze(d, ent["csid"])
     ulist = [(u, None) for u in UNARY.get(dk, [])] + [(u, i) for u in INDEXED.get(dk, []) for i in (0, (len(d.hss) if dk == "MProcess" else len(d.vecs)) - 1)]
+    if g == "copy" and case.get("u") is None:
+        # a temporary tolerance window leaves no trace IN the objects used inside it: every query once on x while Settings.atol is
+        # 1e-3 and once on y under the normal tolerance - afterwards x and y (built from the same snapshot) have the same private state
+        atol_n = q()["Settings"].get_atol()
+        xw, yw = World(), World()
+        x, y = getter_objects(dk), getter_objects(dk)        # built with default arguments (defaults that are resolved lazily stay unresolved)
+        ulist = [(u, i) for u, i in ulist if i is None or i == 0]
+        for obj_, world_, tol_ in ((x, xw, 1e-3), (y, yw, atol_n)):
+            q()["Settings"].set_atol(tol_)
+            try:
+                for u, i in ulist:
+                    try:
+                        with warnings.catch_warnings():
+                            warnings.simplefilter("ignore")
+                            perform(world_, {"t": "unary", "m": u, "a": []} if i is None else {"t": "indexed", "m": u, "i": i, "a": []}, [obj_])
+                    except Exception:
+                        pass
+            finally:
+                q()["Settings"].set_atol(atol_n)
+        ctx.count("derived", key=(case["key"], "tolerance window"), nontrivial=True, label="tolerance window -> %s" % dk)
+        rx, ry = raw_state(x), raw_state(y)
+        if repr(rx) != repr(ry):
+            ch = [(a[0], a[1], b[1]) for a, b in zip(rx[1], ry[1]) if repr(a) != repr(b)] if len(rx[1]) == len(ry[1]) else "?"
+            ctx.violation("derived", "%s (queries under a temporary Settings.set_atol)" % dk, "settings-leak-into-object",
+                          "after all queries were called once while Settings.atol was temporarily 1e-3 the object keeps another private state than an identical object queried under the normal tolerance: %s" % _brief(ch), case)
     for u, i in ulist:
         if case.get("u") is not None and [u, i] != list(case["u"]):
             continue
         desc = {"t": "unary", "m": u, "a": []} if i is None else {"t": "indexed", "m": u, "i": i, "a": []}
-        dd = digest(d)
+        dd = snap(d)
 
         def call(x, world):
             try:
@@ -1937,8 +2196,26 @@ def chk_derived(ctx, case):
         if not same(r1, r2):
             ctx.violation("derived", "%s.%s" % (dk, u), "depends-on-derivation",
                           "%s of the object obtained by %s from %s: %s; of a value-identical object built from fresh arrays: %s" % (u, g, case["key"], _brief(r1), _brief(r2)), sub)
-        if digest(d) != dd:
+        if snap(d) != dd:
             ctx.violation("derived", "%s.%s" % (dk, u), "mutates-argument", "%s changed the object obtained by %s" % (u, g), sub)
+            continue
+        # the caller modifies the arrays it was handed, then uses the object again: a conversion / calculation returns NEW arrays.
+        # (State.to_stacked_vector and State.to_var without parameter constraint are accessors of the state's own vector, like the
+        #  property vec - the one documented exception)
+        if g in ("copy", "x*0.5") and not (dk == "State" and u in ("to_stacked_vector", "to_var")) and u not in ("hs", "vec"):   # hs(i) / vec(i): element accessors
+            try:
+                with warnings.catch_warnings():
+                    warnings.simplefilter("ignore")
+                    raw = perform(w, desc, [d])
+            except Exception:
+                raw = None
+            outs = [a for a in (raw if isinstance(raw, (list, tuple)) else [raw]) if isinstance(a, np.ndarray) and a.flags.writeable and a.size]
+            for a in outs:
+                a.flat[0] = a.flat[0] + 1.0
+            if outs and snap(d) != dd:
+                ctx.violation("derived", "%s.%s" % (dk, u), "result-aliases-operand-array",
+                              "writing into the array returned by %s changed the %s it was computed from: the method hands out the object's own memory" % (u, dk), sub)
+                d = derive(obj, g)
 
 
 def sub_derived(ctx):
@@ -2572,9 +2849,9 @@ def sub_witness(ctx):
     ctx.run_cases("witness", chk_witness, cases)
 
 
-SUBS = [("cache", sub_cache), ("heap", sub_heap), ("basis", sub_basis), ("loss", sub_loss), ("witness", sub_witness), ("pure", sub_pure), ("sampling", sub_sampling), ("tomo", sub_tomo), ("shared", sub_shared), ("containers", sub_containers), ("factory", sub_factory), ("derived", sub_derived), ("history", sub_history), ("process", sub_process)]
+SUBS = [("cache", sub_cache), ("heap", sub_heap), ("basis", sub_basis), ("loss", sub_loss), ("witness", sub_witness), ("pure", sub_pure), ("getters", sub_getters), ("sampling", sub_sampling), ("tomo", sub_tomo), ("shared", sub_shared), ("containers", sub_containers), ("factory", sub_factory), ("derived", sub_derived), ("history", sub_history), ("process", sub_process)]
 FNS = {"cache": chk_cache, "heap": chk_heap, "basis": chk_basis, "copy": chk_copy, "loss": chk_loss, "algo": chk_algo, "estimate": chk_estimate, "loss_pair": chk_loss_pair,
-       "witness": chk_witness, "history": chk_history, "factory": chk_factory, "derived": chk_derived, "pure": chk_pure, "tomo": chk_tomo, "tomo_estimate": chk_tomo_estimate, "shared": chk_shared_estimators, "containers": chk_containers, "process": chk_process, "sampling": chk_sampling}
+       "witness": chk_witness, "history": chk_history, "factory": chk_factory, "derived": chk_derived, "pure": chk_pure, "tomo": chk_tomo, "tomo_estimate": chk_tomo_estimate, "shared": chk_shared_estimators, "containers": chk_containers, "process": chk_process, "getters": chk_getters, "sampling_copy": chk_sampling_copy, "sampling": chk_sampling}
 
 
 def regen_tables(ctx):
